@@ -687,7 +687,7 @@ void fp_prime_set_pmers(const int *f, size_t len) {
 		bn_new(p);
 		bn_new(t);
 
-		if (len >= RLC_TERMS) {
+		if (len == 0 || len >= RLC_TERMS) {
 			RLC_THROW(ERR_NO_VALID);
 			return;
 		}
